@@ -198,7 +198,7 @@ def gen_spec(rng, tier, max_nodes=None, parts=1, with_points=True, kinds=None, f
                 nodes[j]["implements"] = True
                 nodes[j]["kind"] = "impl"
             node.update(impls=impls, written=[], opt=[], outcome="value", enabled=rng.random() > 0.05 or not allow_disabled,
-                        seeded=False, multi=rng.random() < 0.3)
+                        seeded=False, multi=rng.random() < 0.3, prio=rng.choice([0, 0, 0, 5, -1, 2]))
             nodes.append(node)
             continue
         nreq = rng.choice([0, 0, 1, 1, 1, 2, 2, 3])
@@ -327,7 +327,8 @@ def build(spec, group=None):
     if pts:
         dct = {"__module__": modname}
         for i in pts:
-            dct["n%d" % i] = RegistryPoint(multi_output=nodes[i].get("multi", False))
+            # "prio" only arranges the sub-graphs of incremental runs; it must never reorder dependencies
+            dct["n%d" % i] = RegistryPoint(multi_output=nodes[i].get("multi", False), prio=nodes[i].get("prio", 0))
         S = type("S_%s" % tag, (SpecSet,), dct)
         b.extra.append(S)
         for i in pts:
